@@ -31,7 +31,7 @@ def lean_lemma(r, tier):
 
 def run(tier):
     r = Run('C16', tier, level='other')
-    cm.run_kernels(r, cm.kernels('c_coord2cell', 'c_intersect', 'c_voronoi'))
+    cm.run_kernels(r, cm.kernels('c_coord2cell', 'c_intersect', 'c_voronoi', 'c_voronoi#nearest'))
     cm.run_monitors(r, ['mon_intersect_voronoi'])
     lean_lemma(r, tier)
     r.explanation = ('proved (Engine C): c_intersect lists each grid cell holding a catchment-cell centre exactly once with weight count x area ratio '
